@@ -1,6 +1,8 @@
 package main
 
 import (
+	"fmt"
+	"sort"
 	"go/token"
 	"go/types"
 	"strings"
@@ -23,6 +25,7 @@ func init() {
 			{"C13-R3", "cache cleared with every mutation", c13r3},
 			{"C13-R4", "a delete that may leave a shard set empty reaches the unlink decision", c13r4},
 			{"C13-R5", "foreign-cluster shards are merged only after the cluster-local and node-local tests", c13r5},
+			{"C13-R6", "the endpoint diff key is injective on the wire identity of a member", c13r6},
 		},
 	})
 }
@@ -447,6 +450,97 @@ func c13r5(c *Ctx) {
 		}
 		c.Check("snapshotShards: a foreign cluster's shard is merged only after the "+field+" test", pos, len(foreign) == 1 && !found,
 			"a shard of another cluster can be merged into the proxy's endpoints without a branch on "+field+": for a cluster-local service endpoints of other clusters leak in; for a node-local service the proxy on node N of its cluster is given the endpoints on the equally named node of every other cluster (node names are only unique per cluster, the later per-endpoint node test cannot tell them apart)")
+	}
+	c.Floor(3)
+}
+
+// C13-R6: the key that diffs endpoint reports is injective on what identifies a member on the wire. UpdateServiceEndpoints
+// decides "push or not" by comparing the old and the reported members through maps keyed by IstioEndpoint.Key(); two members
+// that share a key hide each other (a report that drops one of them finds "nothing changed" and proxies keep the removed
+// member). A member is identified on the wire by its socket address, so every IstioEndpoint field that reaches the
+// address built for the LbEndpoint (the arguments of util.BuildAddress / net.JoinHostPort in buildEnvoyLbEndpoint, by
+// backward slice) is read by Key() (through its callees).
+func c13r6(c *Ctx) {
+	p := c.P
+	gen := p.Func("pilot/pkg/xds/endpoints", "", "buildEnvoyLbEndpoint")
+	keyFn := p.Func(pkgModel, "IstioEndpoint", "Key")
+	epT := p.Struct(pkgModel, "IstioEndpoint")
+	wire := map[*types.Var]token.Pos{}
+	seen := map[ssa.Value]bool{}
+	var back func(v ssa.Value, d int, pos token.Pos)
+	back = func(v ssa.Value, d int, pos token.Pos) {
+		if v == nil || seen[v] || d > 8 {
+			return
+		}
+		seen[v] = true
+		switch x := v.(type) {
+		case *ssa.UnOp:
+			back(x.X, d+1, pos)
+		case *ssa.FieldAddr:
+			if structOf(x.X.Type()) == epT {
+				if _, ok := wire[fieldVar(x.X.Type(), x.Field)]; !ok {
+					wire[fieldVar(x.X.Type(), x.Field)] = pos
+				}
+			}
+		case *ssa.IndexAddr:
+			back(x.X, d+1, pos)
+		case *ssa.Index:
+			back(x.X, d+1, pos)
+		case *ssa.Convert:
+			back(x.X, d+1, pos)
+		case *ssa.ChangeType:
+			back(x.X, d+1, pos)
+		case *ssa.Phi:
+			for _, e := range x.Edges {
+				back(e, d+1, pos)
+			}
+		case *ssa.Call:
+			if o := calleeObj(x); o != nil && (o.Name() == "Itoa" || o.Name() == "FormatInt" || o.Name() == "FormatUint") {
+				for _, a := range x.Call.Args {
+					back(a, d+1, pos)
+				}
+			}
+		}
+	}
+	nSites := 0
+	eachInstr(gen, func(ins ssa.Instruction) {
+		call, ok := ins.(*ssa.Call)
+		if !ok {
+			return
+		}
+		o := calleeObj(call)
+		if o == nil || !(o.Name() == "BuildAddress" || o.Name() == "JoinHostPort" || o.Name() == "BuildAdditionalAddresses") {
+			return
+		}
+		nSites++
+		for _, a := range call.Call.Args {
+			back(a, 0, call.Pos())
+		}
+	})
+	// ... and by its network: members of different networks may share an address (auto-registered WorkloadEntries of one
+	// group are named group-ip-network but carry the group as workload name), and the network decides whether the member is
+	// sent as itself or replaced by its network's gateway
+	if nf := p.Field(pkgModel, "IstioEndpoint", "Network"); nf != nil {
+		if _, ok := wire[nf]; !ok {
+			wire[nf] = gen.Pos()
+		}
+	}
+	c.Check("buildEnvoyLbEndpoint builds the member's address", gen.Pos(), nSites >= 1 && len(wire) >= 3, fmt.Sprintf("%d address-building calls, %d IstioEndpoint fields reaching them", nSites, len(wire)))
+	keyReads := effectsOf(p.CG().Reach([]*ssa.Function{keyFn}, nil)).Reads
+	var names []string
+	for f := range wire {
+		names = append(names, f.Name())
+	}
+	sort.Strings(names)
+	for _, nm := range names {
+		for f, pos := range wire {
+			if f.Name() != nm {
+				continue
+			}
+			_, ok := keyReads[f]
+			c.Check("the endpoint diff key covers IstioEndpoint."+nm, pos, ok,
+				"IstioEndpoint."+nm+" is part of the socket address a member gets in the ClusterLoadAssignment, but IstioEndpoint.Key() - the key under which UpdateServiceEndpoints compares the old and the reported members - does not read it: two members that differ only in it share a key and hide each other, so a report that drops one of them is classified `no push` and connected proxies keep the removed member")
+		}
 	}
 	c.Floor(3)
 }
